@@ -22,7 +22,7 @@ def run(chk):
     rng = chk.rng.fork("c09")
     progs = []
     for i in range(n):
-        p = asm_gen.gen_chain_prog(rng) if rng.chance(0.1) else asm_gen.gen_shift_prog(rng) if rng.chance(0.15) else asm_gen.gen_prog(rng, size_static=rng.chance(0.3), collide=rng.chance(0.2), boundary=rng.chance(0.1))
+        p = asm_gen.gen_widthflip_prog(rng) if rng.chance(0.06) else asm_gen.gen_chain_prog(rng) if rng.chance(0.1) else asm_gen.gen_shift_prog(rng) if rng.chance(0.15) else asm_gen.gen_prog(rng, size_static=rng.chance(0.3), collide=rng.chance(0.2), boundary=rng.chance(0.1))
         progs.append((p, rng.chance(0.5), rng.chance(0.5)))
     icases, mcases = [], []
     for (p, s, m) in progs:
